@@ -98,6 +98,13 @@ def variants(prods):
             ov = [(l, r) for l, r in prods if l != "A"] + \
                 [("A", r) for r in new_rhs]
             out.append((f"split={sorted(split.items())} override A", files, ov))
+            # ... and a user on another file refers to it with a repetition
+            if where["B"] != where["A"] and any(
+                    "A" in r for l, r in prods if l == "B"):
+                files = render(by, where, nfiles, refs, False, "inline", None,
+                               False, override=("A", new_rhs), plus=True)
+                out.append((f"split={sorted(split.items())} override A, "
+                            "B uses A+", files, ("plus", ov)))
     return out
 
 
@@ -106,7 +113,7 @@ def fname(i):
 
 
 def render(by, where, nfiles, refs, alias, tstyle, order, other_path,
-           override=None):
+           override=None, plus=False):
     files = {}
     al = (lambda i: f"m{i}") if alias else fname
     for f in range(nfiles):
@@ -126,12 +133,13 @@ def render(by, where, nfiles, refs, alias, tstyle, order, other_path,
                 syms = []
                 for x in r:
                     if x in NTS:
+                        op = "+" if (plus and rule == "B" and x == "A") else ""
                         if where[x] == f:
-                            syms.append(x)
+                            syms.append(x + op)
                         elif other_path and f == 0 and where[x] == 2:
                             syms.append(f"{al(1)}.{al(2)}.{x}")
                         else:
-                            syms.append(f"{al(where[x])}.{x}")
+                            syms.append(f"{al(where[x])}.{x}{op}")
                     else:
                         syms.append(f'"{x}"' if tstyle == "inline" else f"t.{x}")
                 alts.append(" ".join(syms) if syms else "EMPTY")
@@ -196,10 +204,20 @@ def run_unit(u):
         gk = spaces.gkey(prods, NTS)
         flat_cache = {}
 
-        def flat(pl):
-            key = tuple(pl)
+        def flat(pl, plus=False):
+            key = (tuple(pl), plus)
             if key not in flat_cache:
                 text = spaces.render_grammar(pl, NTS, "M0")
+                if plus:
+                    lines = text.split("\n")
+                    for k_, ln in enumerate(lines):
+                        if ln.startswith("B:"):
+                            lines[k_] = " ".join(
+                                (t + "+" if t.rstrip(";") == "A" and
+                                 not t.endswith(";") else
+                                 ("A+;" if t == "A;" else t))
+                                for t in ln.split(" "))
+                    text = "\n".join(lines)
                 ps = {}
                 for kind in ("lr", "glr"):
                     try:
@@ -209,8 +227,9 @@ def run_unit(u):
                         ps[kind] = "budget"
                     except Exception as e:     # noqa: BLE001
                         ps[kind] = type(e).__name__
-                ref = CharRef(spaces.ordered_prods(pl, NTS), "S",
-                              spaces.LEXMAPS["M0"], ws="")
+                ref = None if plus else CharRef(
+                    spaces.ordered_prods(pl, NTS), "S", spaces.LEXMAPS["M0"],
+                    ws="")
                 flat_cache[key] = (ps, ref, text)
             return flat_cache[key]
 
@@ -219,7 +238,10 @@ def run_unit(u):
             try:
                 for nme, text in files.items():
                     open(os.path.join(d, nme), "w").write(text)
-                fps, ref, ftext = flat(ov if ov is not None else prods)
+                plus = isinstance(ov, tuple) and ov and ov[0] == "plus"
+                if plus:
+                    ov = ov[1]
+                fps, ref, ftext = flat(ov if ov is not None else prods, plus)
                 case = {"files": files, "flattened": ftext, "variant": desc}
                 try:
                     with quiet():
@@ -274,7 +296,7 @@ def run_unit(u):
                                 "disagree", {"modular": str(a)[:200],
                                              "flat": str(b)[:200]},
                                 dict(case, input=s, parser=kind))
-                        if kind == "glr" and a[0] != "budget":
+                        if kind == "glr" and a[0] != "budget" and ref is not None:
                             sent = ref.analyse(s).sentence
                             if sent != (a[0] == "ok"):
                                 # GLR's own known defects are C01's subject;
